@@ -56,6 +56,27 @@ func selftest(o opts, engine int) int {
 		fmt.Printf("selftest engine1 %s: %d cases x {16,5} workers identical=%v; 1-worker prefix matched %d/%d\n", prop, cases, same, sub, len(idx))
 		if !ok {
 			bad++
+			a, b := strings.Split(logs[0], "\n"), strings.Split(logs[1], "\n")
+			shown := 0
+			for k := 0; k < len(a) && k < len(b) && shown < 5; k++ {
+				if a[k] != b[k] {
+					fmt.Printf("  differs: %q vs %q\n", a[k], b[k])
+					shown++
+				}
+			}
+			for _, l := range strings.Split(logs[2], "\n") {
+				found := false
+				for _, x := range a {
+					if x == l {
+						found = true
+						break
+					}
+				}
+				if !found && shown < 10 {
+					fmt.Printf("  1-worker line without a match: %q\n", l)
+					shown++
+				}
+			}
 		}
 	}
 	if bad > 0 {
